@@ -101,6 +101,14 @@ def _ag_job(job):
             call(athlib.wma_age_grade, 'x', age, ev, '10.0', year=yr_)
             call(athlib.wma_athlon_age_factor, 'x', age, ev)
             call(athlib.wma_athlon_age_factor, g, age, 'NOSUCH')
+        if tbl != 'athlon' and a2 % 3 == 1:
+            # a question about an untabulated distance in between (result discarded): it moves the grader's row scratch, and
+            # what the next tabulated question answers must not depend on it (seed C14-i: a one-entry "row already found"
+            # memo that the distance search does not invalidate)
+            odd = ('7K', '3.5K', '42', '200M', '2400', '11K')[(a2 // 3) % 6]
+            call(athlib.wma_world_best, g, odd, year=int(tbl))
+            if a2 % 2:
+                call(athlib.wma_age_factor, g, age, odd, year=int(tbl))
         if tbl == 'athlon':
             f = call(athlib.wma_athlon_age_factor, g, age, ev)
             b = None
